@@ -1058,6 +1058,78 @@ let rec put_cx = function
 let getq l i =
   nth i l (this (q2Qc { qnum = Z0; qden = XH }))
 
+(** val optl : q list option -> q list **)
+
+let optl = function
+| Some l -> { qnum = (Zpos XH); qden = XH } :: l
+| None -> { qnum = Z0; qden = XH } :: []
+
+(** val cq_of_z : z -> car **)
+
+let cq_of_z z0 =
+  Obj.magic { re = (qqc (zq z0)); im = (qqc { qnum = Z0; qden = XH }) }
+
+(** val vec : car list -> nat -> car **)
+
+let vec l k =
+  nth k l (Obj.magic c0 qcOps)
+
+(** val chunks : nat -> nat -> 'a1 list -> 'a1 list list **)
+
+let rec chunks n m l =
+  match m with
+  | O -> []
+  | S m' -> (firstn n l) :: (chunks n m' (skipn n l))
+
+(** val zs : q list -> z list **)
+
+let zs l =
+  map qz l
+
+(** val cr : q -> car **)
+
+let cr q0 =
+  Obj.magic { re = (qqc q0); im = (qqc { qnum = Z0; qden = XH }) }
+
+(** val crs : q list -> car list **)
+
+let crs l =
+  map cr l
+
+(** val ciQ : car **)
+
+let ciQ =
+  Obj.magic ci qcOps
+
+(** val qcs : q list -> car list **)
+
+let qcs l =
+  map (Obj.magic qqc) l
+
+(** val unqcs : car list -> q list **)
+
+let unqcs l =
+  map (Obj.magic qcq) l
+
+(** val idx_eqb : z list -> z list -> bool **)
+
+let rec idx_eqb a b =
+  match a with
+  | [] -> (match b with
+           | [] -> true
+           | _ :: _ -> false)
+  | x :: a' ->
+    (match b with
+     | [] -> false
+     | y :: b' -> (&&) (Z.eqb x y) (idx_eqb a' b'))
+
+(** val lookup : (z list * car) list -> z list -> car **)
+
+let rec lookup l k =
+  match l with
+  | [] -> Obj.magic c0 qcOps
+  | p :: r -> let (j, v) = p in if idx_eqb j k then v else lookup r k
+
 (** val scan :
     ('a1 -> 'a2 -> 'a1 * 'a3) -> 'a1 -> 'a2 list -> 'a1 * 'a3 list **)
 
@@ -2303,12 +2375,6 @@ let pairf uv =
   ((Z.add (fst uv) (snd uv)),
     (Z.add (Z.mul (Zpos (XO XH)) (snd uv)) (Zpos XH)))
 
-(** val optl : q list option -> q list **)
-
-let optl = function
-| Some l -> { qnum = (Zpos XH); qden = XH } :: l
-| None -> { qnum = Z0; qden = XH } :: []
-
 (** val run_c14 : z -> q list -> q list **)
 
 let run_c14 sub0 a =
@@ -2472,11 +2538,6 @@ let rec triples = function
       | [] -> []
       | c :: r -> ((a, b), c) :: (triples r)))
 
-(** val cq_of_z : z -> car **)
-
-let cq_of_z z0 =
-  Obj.magic { re = (qqc (zq z0)); im = (qqc { qnum = Z0; qden = XH }) }
-
 (** val contour_coef : z -> z -> car -> ((car * car) * car) list -> car **)
 
 let contour_coef p j dt pts =
@@ -2485,22 +2546,10 @@ let contour_coef p j dt pts =
   in
   cQ.omul dt (cQ.odiv s (cq_of_z (Z.of_nat (length pts))))
 
-(** val vec : car list -> nat -> car **)
-
-let vec l k =
-  nth k l (Obj.magic c0 qcOps)
-
 (** val test_nl : nat -> (nat -> car) -> nat -> car **)
 
 let test_nl n u k =
   cQ.oadd (cQ.omul (u k) (u k)) (u (Nat.modulo (S k) n))
-
-(** val chunks : nat -> nat -> 'a1 list -> 'a1 list list **)
-
-let rec chunks n m l =
-  match m with
-  | O -> []
-  | S m' -> (firstn n l) :: (chunks n m' (skipn n l))
 
 (** val run_c02 : z -> q list -> q list **)
 
@@ -2570,11 +2619,6 @@ let run_c02 sub0 a =
          ((contour_coef p0 j (Obj.magic dt)
             (triples (take_cx (skipn (S (S (S (S O)))) a)))) :: []))
   | _ -> []
-
-(** val zs : q list -> z list **)
-
-let zs l =
-  map qz l
 
 (** val run_c20 : z -> q list -> q list **)
 
@@ -2689,21 +2733,6 @@ let run_c20 sub0 a =
             (zs (skipn (S (S (S O))) a))))
    | _ -> [])
 
-(** val cr : q -> car **)
-
-let cr q0 =
-  Obj.magic { re = (qqc q0); im = (qqc { qnum = Z0; qden = XH }) }
-
-(** val crs : q list -> car list **)
-
-let crs l =
-  map cr l
-
-(** val ciQ : car **)
-
-let ciQ =
-  Obj.magic ci qcOps
-
 (** val run_sym : q list -> q list **)
 
 let run_sym a =
@@ -2792,16 +2821,6 @@ let run_wave a =
       (Obj.magic cx0 (S (S (S (S (S (S (S (S (S (S (S O))))))))))))
   in
   put_cx ((fst r) :: ((snd r) :: []))
-
-(** val qcs : q list -> car list **)
-
-let qcs l =
-  map (Obj.magic qqc) l
-
-(** val unqcs : car list -> q list **)
-
-let unqcs l =
-  map (Obj.magic qcq) l
 
 (** val run_conv : q list -> q list **)
 
@@ -2984,25 +3003,6 @@ let run_c04 sub0 a =
           (wavenumber (b O) (n (S O)) (z0 (S (S O))) (n (S (S (S O))))
             (zs (skipn (S (S (S (S O)))) a)))) :: [])
    | _ -> [])
-
-(** val idx_eqb : z list -> z list -> bool **)
-
-let rec idx_eqb a b =
-  match a with
-  | [] -> (match b with
-           | [] -> true
-           | _ :: _ -> false)
-  | x :: a' ->
-    (match b with
-     | [] -> false
-     | y :: b' -> (&&) (Z.eqb x y) (idx_eqb a' b'))
-
-(** val lookup : (z list * car) list -> z list -> car **)
-
-let rec lookup l k =
-  match l with
-  | [] -> Obj.magic c0 qcOps
-  | p :: r -> let (j, v) = p in if idx_eqb j k then v else lookup r k
 
 (** val run_term : q list -> q list **)
 
